@@ -216,6 +216,16 @@ func (x *Exec) obligeClause(st *State, kind string, tags []string, pos token.Pos
 			x.bindingError(fmt.Sprintf("%s %q", what, c.Src), err.Error(), c.File, c.Line)
 			return
 		}
+		// a large conjunction (an expanded constant-range forall) is proved conjunct by conjunct:
+		// each needs one instance of the hypotheses instead of all of them at once
+		if strings.HasPrefix(t, "(and ") {
+			if n := parseSx(t); n != nil && len(n.list) > 16 {
+				for i, part := range n.list[1:] {
+					x.oblige(st, kind, tags, pos, part.String(), fmt.Sprintf("%s [conjunct %d of %d]", exprStr(e), i+1, len(n.list)-1))
+				}
+				continue
+			}
+		}
 		x.oblige(st, kind, tags, pos, t, exprStr(e))
 	}
 }
